@@ -120,6 +120,19 @@ def extract():
     f["pipelineExecForwards"] = re.fullmatch(r"\s*self\.handler\.execution\(\)\s*", fn_body(pipe, "execution")) is not None
     f["pipelineViewDefault"] = "handle_view" not in overrides(src, r"impl HandlerErased for MiddlewarePipeline\s*\{")
     f["offReaderViewDefault"] = "handle_view" not in overrides(src, r"impl<H: HandlerErased> HandlerErased for OffReaderHandler<H>\s*\{")
+    # ---- Next::run: every Next handed to a middleware keeps the context; the leaf gets it
+    nx = fn_body(impl_block(src, r"impl<'a> Next<'a>\s*\{"), "run")
+    lits = [m.start() for m in re.finditer(r"\bNext\s*\{", nx)]
+    calls = re.findall(r"\b(?:Next|Self)::(?:new|with_ctx)\(|\bSelf\s*\{", nx)
+    if not lits and not calls: raise ExtractError("Next::run: no construction of the inner Next recognised")
+    good = bool(lits) and not calls
+    for i in lits:
+        j = nx.find("{", i)
+        lit = " ".join(nx[j + 1:match_brace(nx, j) - 1].split())
+        if not re.fullmatch(r"middlewares: rest, handler: self\.handler, ctx: self\.ctx,?", lit): good = False
+    if not re.search(r"Some\(ctx\) => self\.handler\.handle_with_ctx\(req, ctx\)", nx) or not re.search(r"None => self\.handler\.handle\(req\)", nx): good = False
+    if not re.search(r"self\.middlewares\.split_first\(\)", nx): good = False
+    f["nextForwardsCtx"] = good
     # the trait default itself
     tr = impl_block(src, r"pub trait HandlerErased\s*:\s*Send \+ Sync\s*\{")
     if not re.fullmatch(r"\s*self\.handle_with_ctx\(&view\.to_message\(\), ctx\)\s*", fn_body(tr, "handle_view")): raise ExtractError("HandlerErased::handle_view default not recognised")
@@ -144,7 +157,8 @@ def render(f):
     L.append("  { " + ",\n    ".join(f"{k} := {gate_s(f[k])}" for k in keys) + ",")
     L.append(f"    pipelineExecForwards := {b(f['pipelineExecForwards'])},")
     L.append(f"    pipelineViewDefault := {b(f['pipelineViewDefault'])},")
-    L.append(f"    offReaderViewDefault := {b(f['offReaderViewDefault'])} }}")
+    L.append(f"    offReaderViewDefault := {b(f['offReaderViewDefault'])},")
+    L.append(f"    nextForwardsCtx := {b(f['nextForwardsCtx'])} }}")
     L.append("end Repe.Gen")
     return "\n".join(L) + "\n"
 
